@@ -285,8 +285,12 @@ func (rc *CRespCodec) parseLine(buf *codec.Buffer) ([]byte, error) {
 	switch line[0] {
 	case '$':
 		n, err := parseLen(line[1:])
-		if n < 0 || err != nil {
+		if err != nil {
 			return nil, err
+		}
+		if n < 0 {
+			// a null bulk ("$-1") is not a valid request argument
+			return nil, codec.ErrInvalidResp
 		}
 		b, err := buf.ReadN(n)
 		if err != nil {
